@@ -73,7 +73,8 @@ func Main(prop string) {
 		{"Lexer_str6.cfg", "strings and escapes: length <= 6 over {sq, L, bs, N, nl, sp}"},
 		{"Lexer_num6.cfg", "numbers: length <= 6 over {D, ., E, +, -, L, sp}"},
 		{"Lexer_com6.cfg", "comments: length <= 6 over {-, /, *, nl, L, sp, sq}"},
-		{"Lexer_dol6.cfg", "dollar quoting and placeholders: length <= 6 over {$, L, D, sp}"}}
+		{"Lexer_dol6.cfg", "dollar quoting and placeholders: length <= 6 over {$, L, D, sp}"},
+		{"Lexer_uq5.cfg", "plain and typographic quotes mixed (delimiters and doubled-quote pairs of different byte widths): length <= 5 over {sq, usq, dq, udq, L}"}}
 	if tier == "thorough" {
 		cfgs = []Config{{"Lexer_full3.cfg", "all inputs of length <= 3 over the full alphabet of 40 classes"},
 			{"Lexer_mid4.cfg", "all inputs of length <= 4 over a 22-class alphabet (every ladder start and continuation)"},
@@ -81,7 +82,8 @@ func Main(prop string) {
 			{"Lexer_num7.cfg", "numbers: length <= 7 over {D, ., E, +, -, L, sp}"},
 			{"Lexer_com7.cfg", "comments: length <= 7 over {-, /, *, nl, cr, L, sp, sq}"},
 			{"Lexer_dol7.cfg", "dollar quoting and placeholders: length <= 7 over {$, L, D, sp, nl}"},
-			{"Lexer_qid6.cfg", "quoted identifiers: length <= 6 over {dq, udq, bt, L, nl, sp, sq}"}}
+			{"Lexer_qid6.cfg", "quoted identifiers: length <= 6 over {dq, udq, bt, L, nl, sp, sq}"},
+			{"Lexer_uq7.cfg", "plain and typographic quotes mixed: length <= 7 over {sq, usq, dq, udq, L}"}}
 	}
 	live := core.MustTLC(core.TLCOpts{Spec: "Lexer", Cfg: "Lexer_live.cfg", Timeout: 10 * time.Minute})
 	run.AddTLC(live.Stat("reference lexer: Progress (cursor strictly advances) and Termination on all inputs of length <= 3 over 14 classes"))
@@ -441,7 +443,7 @@ func check(run *core.Run, prop string, cs *Case, v int) {
 	if specFails {
 		if prop == "C05" {
 			e := ops.Err(terr)
-			wl, _, _ := txt.Loc(max(cs.Err.At, 1))
+			wl, wc, exact := txt.Loc(max(cs.Err.At, 1))
 			if !e.Struct {
 				return
 			}
@@ -450,6 +452,8 @@ func check(run *core.Run, prop string, cs *Case, v int) {
 				fail("error-location-outside-input|"+cs.Err.E, "an error's location lies inside the input", map[string]int{"line": e.Line, "col": e.Col}, nl)
 			} else if e.Line != wl {
 				fail("error-location-wrong-line|"+cs.Err.E, "a tokenizer error is located on the line of the offending element", map[string]int{"line": e.Line, "col": e.Col}, wl)
+			} else if exact && e.Line != 0 && e.Col != wc {
+				fail("error-location-wrong-column|"+cs.Err.E, "a tokenizer error is located at the column where the offending element begins", map[string]int{"line": e.Line, "col": e.Col}, map[string]int{"line": wl, "col": wc})
 			}
 		} else if want := errCode[cs.Err.E]; want != "" && ops.Err(terr).Code != want {
 			// the code family is property C13's business; here only a sanity note in the evidence
